@@ -112,7 +112,8 @@ PROPS["C04"] = {
 PROPS["C07"] = {
     "violation_if": {"cancel": r"^HANG"},
     "lean_module": "LispModel.Props.C07",
-    "engines": [{"name": "cancel", "quick": 2500, "thorough": 40000}],
+    "engines": [{"name": "cancel", "quick": 2500, "thorough": 40000},
+                {"name": "cancelwall", "quick": 42, "thorough": 420}],
     "technique": "Lean 4 theorems about the poll structure of the evaluator model (every loop iteration polls first) + poll-counting context correspondence",
     "level_text": "PARTIAL: the logic is proved in poll ticks (after the cancelling poll every evaluation step returns the timeout error at once, no effect "
                   "is appended, the number of further polls is bounded by the try nesting); the tie runs real EVAL under a context whose Done() closes at the "
